@@ -182,6 +182,19 @@ class CoreMixin:
         self.obls.append(o)
         return o
 
+    def named_concat(self, st, parts, hint="cat"):
+        """A fresh list value equal to the concatenation of `parts` -- each ("seq", <Seq V term>) or ("unit", <V term>) -- with
+        its identity-membership facts (lemma IS-MEM: ismem distributes over ++, ismem of a unit is equality)."""
+        terms = [p if k == "seq" else f"(seq.unit {p})" for k, p in parts]
+        t = "(as seq.empty (Seq V))" if not terms else terms[0] if len(terms) == 1 else "(seq.++ " + " ".join(terms) + ")"
+        r = self.fresh_val(hint, kind="list")
+        r.fresh = TRUE
+        st.assume(Eq(r.t, f"(v_list {t})"), fact=True)
+        x = fresh_name("x")
+        alts = [f"(ismem {p} {x})" if k == "seq" else f"(= {x} {p})" for k, p in parts]
+        st.assume(f"(forall (({x} V)) (! (= (ismem (seqof {r.t}) {x}) (or false {' '.join(alts)})) :pattern ((ismem (seqof {r.t}) {x}))))", fact=True)
+        return r
+
     # ---- attributes of objects allocated in this activation live in the state (path-local)
     def oattrs(self, st, so):
         if st is not None:
